@@ -26,6 +26,7 @@ type verifPassOpts struct {
 	cacheMayLag    bool // a ref's task object may be missing from the cache
 	taskMayFinish  bool // a cached unfinished task may have finished since
 	taskMayRun     bool // ... or started running since
+	taskMayLoseRunning bool // a task seen finished may no longer report its running time
 	taskDeleting   bool // cached tasks may carry a deletionTimestamp
 	createOutcomes int  // 1 = ok only; 2 = + other error; 4 = + AlreadyExists + AdmissionRefused
 	deleteMayFail  bool
@@ -106,6 +107,10 @@ func verifSetupPass(o verifPassOpts) *verifPass {
 				ts := metav1.NewTime(vz.InstantNear("task.finishedAt"))
 				t.Ref.FinishTimestamp = &ts
 				t.Ref.Status.State = execution.TaskTerminated
+				if o.taskMayLoseRunning && t.Ref.RunningTimestamp != nil && vz.Bool("task.lostRunningTime") {
+					// the executor no longer knows when the task started (container state unknown)
+					t.Ref.RunningTimestamp = nil
+				}
 				if vz.Bool("task.nowSucceeded") {
 					t.Ref.Status.Result = execution.TaskSucceeded
 				} else {
@@ -218,7 +223,7 @@ func (p *verifPass) armedFor(deadline time.Time) bool {
 	armed := false
 	for _, op := range p.queue.Ops {
 		if op.Op == "addAfter" && op.Key == "ns/job" {
-			armed = vz.Or(armed, vz.And(!op.At.Add(op.After).Before(deadline), op.After >= time.Second))
+			armed = vz.Or(armed, !op.At.Add(op.After).Before(deadline))
 		}
 	}
 	return armed
